@@ -42,6 +42,7 @@ type batch struct {
 
 type searchObs struct {
 	Index      string  `json:"index"`
+	Text       string  `json:"text"`
 	AckedStart []int64 `json:"ackedStart"` // vids (of this index) whose flush had completed when the search began
 	Got        []int64 `json:"got"`
 	Err        string  `json:"err,omitempty"`
@@ -234,11 +235,15 @@ func runProgramme(p *programme) *progResult {
 				}
 				mu.Unlock()
 				rot0 := atomic.LoadInt64(&rotations)
-				m := map[string]interface{}{"searchText": "*", "indexName": ix, "startEpoch": p.Start, "endEpoch": p.End,
+				text := "*"
+				if (i+k)%2 == 1 {
+					text = "vk>-1"
+				}
+				m := map[string]interface{}{"searchText": text, "indexName": ix, "startEpoch": p.Start, "endEpoch": p.End,
 					"queryLanguage": "Splunk QL", "size": uint64(p.Total + 10)}
 				qid := atomic.AddUint64(&qidSeq, 1)
 				resp, _, _, err := pipesearch.ParseAndExecutePipeRequest(m, qid, 0, time.Now(), "", nil)
-				ob := searchObs{Index: ix, AckedStart: start, DuringRot: atomic.LoadInt64(&rotations) != rot0}
+				ob := searchObs{Index: ix, Text: text, AckedStart: start, DuringRot: atomic.LoadInt64(&rotations) != rot0}
 				if err != nil {
 					ob.Err = err.Error()
 				} else if resp != nil {
